@@ -15,6 +15,9 @@
 //!                             container bookkeeping: `blocks` are the (type,id,csize,rsize) descriptors of a
 //!                             container produced by the writer for the spec in the remaining args; obs = the
 //!                             header fields the file really carries (model: NV.CramRec.Container)
+//!   mates names refs recs     one slice through set_mates/write_mate and read_mate/resolve_mates: obs = the
+//!                             FLAG/RNEXT/PNEXT/TLEN columns read back (model: NV.CramRec.Mates), see
+//!                             shared/c07_mates.rs
 
 use std::{collections::HashMap, io::Read as _, panic::AssertUnwindSafe};
 
@@ -1277,8 +1280,15 @@ fn run_cont(c: &Case) -> Obs {
 #[path = "../shared/c07_gen.rs"]
 mod cgen;
 
+#[path = "../shared/c07_mates.rs"]
+mod mates;
+
 fn generate(rng: &mut Rng, tier: &str, w: &mut CaseWriter) {
     cgen::generate(rng, tier, w);
+    let n_mates = if tier == "thorough" { 15000 } else { 700 };
+    for _ in 0..n_mates {
+        mates::push_mates(rng, w);
+    }
 }
 
 fn run(c: &Case) -> Obs {
@@ -1286,6 +1296,7 @@ fn run(c: &Case) -> Obs {
         "rt" => run_rt(c),
         "feat" => run_feat(c),
         "cont" => run_cont(c),
+        "mates" => mates::run_mates(c),
         k => Obs::fail("-", "harness-unknown-kind", k),
     }
 }
